@@ -85,14 +85,16 @@ impl Setters {
         let n_calls = rng.ui(10, 60);
         let s1 = rng.next();
         let mut script = J::arr();
-        let desc0 = J::obj().with("sample", J::s(T::NAME)).with("cfg", cfg.json()).with("signal_seed", J::Int(s1 as i128));
+        // 10 %: the calls go through the object-safe wrapper (which has no set_chunk_size); the twin stays direct
+        let boxed = rng.chance(0.1);
+        let desc0 = J::obj().with("sample", J::s(T::NAME)).with("cfg", cfg.json()).with("signal_seed", J::Int(s1 as i128)).with("through_boxed_vecresampler", J::b(boxed));
         set_desc(&desc0);
         let mut cr = CaseResult { desc: desc0.clone(), ..Default::default() };
         if ctx.describe {
             cr.desc = desc0.with("calls", J::s("setter script is generated while running (deterministic in seed/idx)"));
             return cr;
         }
-        let mut a = match Runner::<T>::fresh(&cfg, Sig::noise(s1)) {
+        let mut a = match if boxed { Runner::<T>::fresh_boxed(&cfg, Sig::noise(s1)) } else { Runner::<T>::fresh(&cfg, Sig::noise(s1)) } {
             Ok(r) => r,
             Err(e) => {
                 cr.inconclusive = Some(e);
@@ -109,6 +111,7 @@ impl Setters {
         let mut twin_ok = true;
         for c in 0..n_calls {
             let which = rng.ui(0, 9);
+            let which = if boxed && which >= 7 { which - 7 } else { which };
             let ramp = rng.bool();
             if which < 4 {
                 // set_resample_ratio
@@ -241,6 +244,9 @@ impl Setters {
             cr.inconclusive = Some("C03 event in this history".into());
         }
         st.add(&format!("cases.{}", cfg.kind.name()), 1.0);
+        if boxed {
+            st.add("cases_through_boxed_vecresampler", 1.0);
+        }
         cr.desc = desc0.with("calls", script);
         cr.class = Some(format!("{}|{}|{}", T::NAME, cfg.class(), idx % 64));
         cr
